@@ -45,6 +45,36 @@ def _ffp_call(ctx):
     return f, st, amap
 
 
+def far_field_creations(ctx):
+    """[(path, {parameter of Far_Field_Pattern.__init__: closed argument expression})] from the symbolic
+    walk of compute_far_field (private helpers looked through; large arrays kept as dependency summaries)"""
+    cache = ctx.__dict__.get('_ffp_creations')
+    if cache is not None:
+        return cache
+    from ..symx import SymExec
+    f = ctx.func(FAR)
+    init = ctx.func(FFP)
+    params = init.params[1:]
+    out = []
+    for p in SymExec(ctx, f, bind_loops=True, private_only=True, effects=True, objects=True,
+                     max_paths=20000, depth=3).run():
+        if p.end == 'raise':
+            continue
+        for ev in p.events:
+            if ev[0] == 'create' and norm(ev[2].func) == 'Far_Field_Pattern':
+                amap = {}
+                for i, a in enumerate(ev[2].args):
+                    if i < len(params):
+                        amap[params[i]] = a
+                for kw in ev[2].keywords:
+                    amap[kw.arg] = kw.value
+                out.append((p, amap))
+    if not out:
+        raise AnalysisError('compute_far_field: no Far_Field_Pattern(...) creation on the symbolic paths')
+    ctx.__dict__['_ffp_creations'] = out
+    return out
+
+
 def find_integrator(ctx, entry_qual):
     """the function that holds the loop over self.image_iter(): the entry point with its private helpers
     inlined, or a (non-private) helper method reachable from it through self-calls"""
